@@ -387,7 +387,12 @@ class TaggedUnionConverter(UnionConverter):
         inner_conv = self.converters[self.tag_map[tag]]
         if self.external is False:
             # internally tagged
-            return inner_conv.into_data(val)
+            data = inner_conv.into_data(val)
+            # parsing reads the tag under the tag's own name, however the variant spells that field in data
+            for field in getattr(inner_conv, 'fields', ()):
+                if field.name == self.tag and field.out_name != self.tag and isinstance(data, dict) and field.out_name in data:
+                    data = {(self.tag if k == field.out_name else k): v for (k, v) in data.items()}
+            return data
         if self.external is True:
             # externally tagged
             return {tag: inner_conv.into_data(val)}
